@@ -15,6 +15,8 @@ lim <n> <0|1>                   start of a trace: configured limit; is a finishe
 new <tid> <cls> <var> <nil> <zd> <mod>  task attributes (tid = 0,1,2,…; zd = 1: called with max delay 0; mod = its module)
 t <tid> nilret | submit <m|l> | hinc <cnt> | tmoenq <cnt> | tmowait | begin <modcnt> | moddec <out> <modcnt>
         | stopchk | dec <cnt> | tok <0|1> | ret <code> | doneagain
+                                out: what the function did (0 nil, 2 panic, 100+k: returned value k of the harness's error
+                                dictionary); code: what the caller of a blocking variant got (same numbering, 3 errNoModule)
 m <mod> stop | flag | mcheck <0|1> | wake | timeout <modcnt> | offline | start
                                 steps of the stop protocol of one module (`MSt`); mcheck: a checkIfStopComplete got
                                 as far as the microtask counter and found it passing (1) or not (0); modcnt = value
@@ -167,9 +169,15 @@ def taskEv (x : Drv) (t : Nat) (ev : List String) : Except String Drv := do
     match c.toNat? with
     | some c => do
       let x ← app x .ret me
+      -- harness code of what the caller got: 0 nil · 2 the panic error of this task · 3 errNoModule · 100+k the very
+      -- value k of the error dictionary the function returned · 7/8 something else; the model's `res` is
+      -- 1 for errNoModule and `out + 2` for the function's outcome `out` (same numbering)
+      let want := if c = 3 then 1 else c + 2
       match x.ts[t]? with
       | some d' =>
-        if d'.var = 0 ∧ d'.res ≠ c then throw s!"task {t}: caller got {c}, model {d'.res}" else pure x
+        if d'.var = 0 ∧ d'.res ≠ want then
+          throw s!"task {t}: caller got {c}, the function's outcome in the model is {d'.res - 2} (the blocking variants return it unchanged)"
+        else pure x
       | none => throw "unknown task"
     | none => throw "bad-op"
   | ["doneagain"] => app x .doneAgain me
